@@ -21,6 +21,12 @@ def run(ctx, prop):
         r = ctx.tlc("tasklane", "TaskLaneMC", cfg + ".cfg", workers=16, timeout=3000, xmx="24g", tag="TaskLane " + cfg)
         if r.violated:
             raise vlib.Infra("spec-level counterexample in %s (model, not code): %s\n%s" % (cfg, r.violated, r.trace[:3000]))
+    if not q:
+        # beyond the exhaustive bounds: random deep behaviours of a 3-lane, 4-task, 3-producer model with panics and Status
+        r = ctx.tlc("tasklane", "TaskLaneMC", "MC_sim.cfg", workers=16, timeout=900, xmx="8g", simulate="num=1500", depth=400,
+                    extra=["-seed", str(ctx.seed)], tag="TaskLane MC_sim (simulation: 24000 behaviours of depth <= 400)")
+        if r.violated:
+            raise vlib.Infra("spec-level counterexample in simulation (model, not code): %s\n%s" % (r.violated, r.trace[:3000]))
     for mut, expect in mutants:
         m = ctx.tlc("tasklane", "TaskLaneMC", mut + ".cfg", workers=8, timeout=900, count=False, tag="mutant " + mut)
         if not m.violated:
@@ -60,7 +66,8 @@ def run(ctx, prop):
         else:
             raise vlib.Infra("race detector report inside the harness itself:\n" + first[:1500])
     rows = vlib.read_ndjson(ctx.path("traces.ndjson"))
-    bad, _, _ = judge(ctx, "tasklane", "TaskLaneCases", rows, nshards=min(16, max(1, len(rows) // 8)), workers=1, timeout=3000,
+    nsh = min(16, max(1, len(rows) // 8))
+    bad, _, _ = judge(ctx, "tasklane", "TaskLaneCases", vlib.balanced(rows, nsh, lambda c: len(c["evs"])), nshards=nsh, workers=1, timeout=3000,
                       constants='CONSTANT Prop = "%s"\n' % prop, xmx="3g")
     seen = set()
     for c in bad:
